@@ -50,7 +50,7 @@ def c01_block_tx_gate(ctx, v):
             if o.kind in ("unsupported", "unwound", "path-limit"):
                 return v.undecided("%s K=%d: %s" % (o.kind, K, o.info))
             if o.kind == "panic":
-                v.fail("K=%d panic: %s" % (K, o.info))
+                L.report_panic(v, ex, o, "K=%d panic: %s" % (K, o.info))
                 continue
             if o.kind != "return":
                 continue
@@ -106,7 +106,7 @@ def c01_block_double_spend(ctx, v):
             if o.kind in ("unsupported", "unwound", "path-limit"):
                 return v.undecided("%s K=%d: %s" % (o.kind, K, o.info))
             if o.kind == "panic":
-                v.fail("K=%d panic: %s" % (K, o.info))
+                L.report_panic(v, ex, o, "K=%d panic: %s" % (K, o.info))
                 continue
             if o.kind != "return":
                 continue
@@ -160,7 +160,7 @@ def c01_pool_gate(ctx, v):
         if o.kind in ("unsupported", "unwound", "path-limit"):
             return v.undecided("%s: %s" % (o.kind, o.info))
         if o.kind == "panic":
-            v.fail("panic: %s" % o.info)
+            L.report_panic(v, ex, o, "panic: %s" % o.info)
             continue
         adds = L.calls(o, r"Mempool::add_transaction$")
         vals = L.calls(o, r"Transaction::validate$")
@@ -195,3 +195,91 @@ def c01_unwind_full_before_revert(ctx, v):
     reverts nothing) — same obligation as C03 c03_unwind_full_before_revert."""
     from . import obl_c03
     obl_c03.c03_unwind_full_before_revert(ctx, v)
+
+
+def c01_ledger_check_switch(ctx, v):
+    """Whether a block wound onto the chain is checked against the ledger (spent / non-existent /
+    expired inputs) hangs on one switch.  (a) Blockchain::has_total_supply_loaded(gp), for every
+    tip height, gp and content of the longest-chain index (an arbitrary predicate over heights):
+    it answers true exactly when the index holds block #1 or — once the tip is above gp — the
+    block at height tip - gp.  (b) Blockchain::wind_chain hands exactly that answer to
+    Block::validate as `validate_against_utxo` on every path that validates a block."""
+    from .models import mk_some, mk_none
+    body = ctx.body(r"blockchain::<impl at [^>]*>::has_total_supply_loaded$")
+    ex = ctx.executor(loop_bound=3, inline="auto", no_inline=[r"get_longest_chain_block_hash_at_block_id$", r"get_latest_block_id$"])
+    ex.pure = [r".*"]
+    present = z3.Function("index_holds_height", z3.BitVecSort(64), z3.BoolSort())
+    tip = ex.fresh_value("u64", "tip.id")
+    gp = ex.fresh_value("u64", "genesis_period")
+
+    def hook(ex_, st, callee, args, dty):
+        if re.search(r"get_longest_chain_block_hash_at_block_id$", callee):
+            h = args[1]
+            return ("__fork__", [(present(h.bv), mk_some(dty, ex_.fresh_value("[u8; 32]", "hash!%d" % next(ex_.fresh_counter)))), (z3.Not(present(h.bv)), mk_none(dty))])
+        if re.search(r"get_latest_block_id$", callee):
+            return ex_.copy_value(tip)
+        return None
+    ex.on_call = hook
+    outs = ex.run(body, [S.Ref(S.Cell(S.Opaque("blockchain", "Blockchain"))), gp], S.State())
+    v.paths += len(outs)
+    n = 0
+    ref = z3.Or(present(z3.BitVecVal(1, 64)), z3.And(z3.UGT(tip.bv, gp.bv), present(tip.bv - gp.bv)))
+    for o in outs:
+        if o.kind in ("unsupported", "unwound", "path-limit"):
+            return v.undecided("%s %s" % (o.kind, o.info))
+        if o.kind == "panic":
+            L.report_panic(v, ex, o, "has_total_supply_loaded panics: %s" % o.info)
+            continue
+        if o.kind != "return":
+            continue
+        res = o.value if z3.is_bool(o.value) else (o.value.bv != 0)
+        r, m = ex.model_for(o.pc, res != ref)
+        v.queries += 1
+        if r == z3.sat:
+            L.fail_structural(v, o, "has_total_supply_loaded answers %s for tip %d, genesis period %d although the index %s block #1 and %s the block at tip - genesis_period: blocks would be wound %s the ledger check" % (
+                m.eval(res, model_completion=True), m.eval(tip.bv, model_completion=True).as_long(), m.eval(gp.bv, model_completion=True).as_long(),
+                "holds" if z3.is_true(m.eval(present(z3.BitVecVal(1, 64)), model_completion=True)) else "does not hold",
+                "holds" if z3.is_true(m.eval(present(tip.bv - gp.bv), model_completion=True)) else "does not hold",
+                "without" if z3.is_false(m.eval(res, model_completion=True)) else "with"))
+        elif r == z3.unsat:
+            n += 1
+        else:
+            return v.undecided("solver: no verdict")
+    v.covers_total += 1
+    v.covers_sat += 1 if n else 0
+    # (b) the switch is what wind_chain passes to Block::validate
+    from . import obl_c04
+    ex2, args, valid = obl_c04._setup(ctx, 2, 1, 12)
+    H = z3.Bool("has_total_supply_loaded")
+    inner = ex2.on_call
+    seen_validate = []
+
+    def hook2(ex_, st, callee, a, dty):
+        if re.search(r"has_total_supply_loaded$", callee):
+            return H
+        if re.search(r"(?:^|::)Block::validate$", callee):
+            st.events.append(("validate_args", callee, a, None))
+        return inner(ex_, st, callee, a, dty)
+    ex2.on_call = hook2
+    chain_ref, new_ref, old_ref, storage, cfg = args
+    body2, co = L.coroutine(ctx, ex2, r"blockchain::<impl at [^>]*>::wind_chain", [chain_ref, new_ref, old_ref, S.const_int(1, "usize"), z3.BoolVal(False), storage, cfg])
+    outs2 = ex2.run(body2, [S.Ref(S.Cell(co), (), True), S.Opaque("cx", "Context")], S.State())
+    v.paths += len(outs2)
+    m2 = 0
+    for o in outs2:
+        if o.kind in ("unsupported", "path-limit"):
+            return v.undecided("wind_chain: %s %s" % (o.kind, o.info))
+        for e in o.events:
+            if e[0] != "validate_args":
+                continue
+            flag = e[2][-1]
+            flag = flag if z3.is_bool(flag) else (flag.bv != 0)
+            v.queries += 1
+            if ex2.feasible(o.pc, flag != H):
+                L.fail_structural(v, o, "wind_chain does not pass the answer of has_total_supply_loaded to Block::validate as validate_against_utxo")
+            else:
+                m2 += 1
+    if not m2:
+        return v.undecided("wind_chain never reached Block::validate")
+    v.covers_total += 1
+    v.covers_sat += 1
